@@ -22,7 +22,8 @@ RULE = ("BFS from two initial states (empty project; one persisted, referenced e
         "report}, review x all answer vectors} up to a depth bound per configuration (hash-length {12, 64, 3} x storage-dir "
         "{default, custom}); states = distinct (test files, storage) trees, transitions = real sessions; every transition is "
         "compared with the storage model (validated = transitions that agree) and five invariants are checked in every state; "
-        "plus exhaustive lookup probes (stores of <= 3 files incl. a colliding pair x all prefixes of length 0..5 and full names)")
+        "plus exhaustive lookup probes (stores of <= 3 files incl. a colliding pair x all prefixes of length 0..5 and full names)"
+        "; plus fixed histories: suffix pairs incl. edge suffixes, import shapes x flows, hash-length changes, colliding prefixes, relative storage-dir")
 ASSUMPTIONS = ["payloads used in histories never collide on the configured prefix length (documented price of a short hash-length)",
                "the lookup probe calls DiscStorage.read directly (anchored internal API); skipped with a note if it no longer exists"]
 TASK_TIMEOUT = 1200
